@@ -432,6 +432,22 @@ def rule_K3_K4(ctx):
               '_dict_deserialize(value)' in dtxt,
               'de-serialisation does not dispatch on __class__ through the '
               'registry and recurse', ctx.where(io, des))
+    # HDF5 groups keep insertion order only with track_order=True
+    # (axiom about h5py: otherwise members come back in alphabetical order,
+    # which permutes name->data associations of dictionaries)
+    hd = io.func('_hdf5_dump')
+    groups = [c for c in ast.walk(hd) if isinstance(c, ast.Call) and
+              isinstance(c.func, ast.Attribute) and
+              c.func.attr == 'create_group']
+    ctx.anchor(len(groups) >= 1, 'create_group in _hdf5_dump')
+    for c in groups:
+        kws = {k.arg: ast.unparse(k.value) for k in c.keywords}
+        ctx.check('C17.K3.h5order', f'_hdf5_dump `{ast.unparse(c)[:50]}`',
+                  kws.get('track_order') == 'True',
+                  'HDF5 groups are created without track_order=True: nested '
+                  'dictionaries are reloaded in alphabetical, not insertion '
+                  'order (survey dictionaries no longer match the data axes)',
+                  ctx.where(io, c))
     cv = io.func('convert')
     body = [ast.unparse(s).replace(' ', '') for s in au.body_nodoc(cv)]
     ps = au.params(cv)
@@ -442,6 +458,51 @@ def rule_K3_K4(ctx):
     ctx.floor('C17.K3.formats', 4)
     ctx.floor('C17.K3.tags', 4)
     ctx.floor('C17.K3.sentinel', 2)
+
+
+def rule_oneshot(ctx):
+    """Simulation.to_file hands `what` to to_dict through a one-shot
+    attribute; to_dict must consume (delete) it on every path that reads it,
+    otherwise later to_dict/copy/save calls silently use the old value."""
+    sm = ctx.repo.mod('emg3d/simulations.py')
+    tf = sm.method('Simulation', 'to_file')
+    sets = [n for n in ast.walk(tf) if isinstance(n, ast.Assign) and any(
+        isinstance(t, ast.Attribute) and ast.unparse(t.value) == 'self'
+        for t in n.targets)]
+    for st in sets:
+        attr = st.targets[0].attr
+        td = sm.method('Simulation', 'to_dict')
+        from ..core.cfg import CFG
+        cfg = CFG(td)
+        reads = [n for n in cfg.nodes if n.ast is not None and n.kind in (
+            'stmt', 'test') and any(
+                (isinstance(x, ast.Attribute) and x.attr == attr and
+                 isinstance(x.ctx, ast.Load)) or
+                (isinstance(x, ast.Constant) and x.value == attr and
+                 isinstance(au.parent(x), ast.Call) and ast.unparse(
+                     au.parent(x).func) == 'getattr')
+                for x in ast.walk(n.ast))]
+        dels = [n for n in cfg.nodes if n.kind == 'stmt' and n.ast is not None
+                and ((isinstance(n.ast, ast.Expr) and isinstance(
+                    n.ast.value, ast.Call) and ast.unparse(
+                        n.ast.value.func) == 'delattr' and
+                    f"'{attr}'" in ast.unparse(n.ast.value)) or
+                    (isinstance(n.ast, ast.Delete) and attr in
+                     ast.unparse(n.ast)))]
+        ok = bool(reads) and bool(dels)
+        if ok:
+            import networkx as nx
+            g = cfg.graph()
+            g.remove_nodes_from(dels)
+            for r in reads:
+                if r in g and cfg.exit in nx.descendants(g, r):
+                    ok = False
+        ctx.check('C17.K4.oneshot', f'Simulation.to_dict consumes '
+                  f'self.{attr}', ok, f'`{attr}` set by to_file is read by '
+                  'to_dict but not deleted on every path: a later '
+                  'to_dict/copy/save silently re-uses the old `what`',
+                  ctx.where(sm, td), sample={'attribute': attr})
+    ctx.floor('C17.K4.oneshot', 1)
 
 
 def run(ctx):
@@ -458,3 +519,4 @@ def run(ctx):
     known = rule_K1_K2(ctx, C)
     ctx.extra['registered_classes'] = sorted(known)
     rule_K3_K4(ctx)
+    rule_oneshot(ctx)
